@@ -16,7 +16,7 @@ func docOptions(r *Rng, rich bool) map[string]any {
 		o["allowed_email_domains"] = r.Pick0s([][]string{{"example.com"}, {"other.org"}, {"{{maildomain}}"}})
 	}
 	if r.Chance(1, 4) {
-		o["allowed_email_addresses"] = r.Pick0s([][]string{{"alice@example.com"}, {"bob@example.com", "carol@other.org"}})
+		o["allowed_email_addresses"] = r.Pick0s([][]string{{"alice@example.com"}, {"bob@example.com", "carol@other.org"}, {"{{botmail}}"}, {"{{oddmail}}", "alice@example.com"}})
 	}
 	if r.Chance(1, 3) {
 		o["skip_auth_regex"] = r.Pick0s([][]string{{"^/health$"}, {"^/public/.*", "^/health$"}, {`^\/github-webhook\/$`}})
@@ -55,7 +55,9 @@ func genC14(r *Rng) *Plan {
 	case 2:
 		cfg.DefaultAddresses = []string{"dave@example.com"}
 	}
-	doc := &DocSpec{Vars: map[string]string{"root": RootDomain, "team": "eng", "maildomain": "example.com", "back": "backend.sim"}}
+	// template values are substituted verbatim, whatever they contain ('$', back-references, backslashes)
+	doc := &DocSpec{Vars: map[string]string{"root": RootDomain, "team": "eng", "maildomain": "example.com", "back": "backend.sim",
+		"botmail": "build$bot@example.com", "oddmail": `a\1${x}$0@example.com`, "rwto": "--$1.backend.sim"}}
 	cfg.AuthDomains = []string{"*"}
 	nSvc := r.Range(1, 3)
 	shapeTag := ""
@@ -114,6 +116,9 @@ func genC14(r *Rng) *Plan {
 			}
 			if r.Chance(1, 6) {
 				e.Type, e.From, e.To = "rewrite", fmt.Sprintf(`^svc%d--(.*)\.{{root}}$`, i), fmt.Sprintf("svc%d--$1.{{back}}", i)
+				if r.Chance(1, 2) {
+					e.To = fmt.Sprintf("svc%d{{rwto}}", i) // the capture reference arrives through a template value
+				}
 				e.Backend = []string{fmt.Sprintf("svc%d--x.backend.sim", i)}
 			}
 			blk.Extra = []*DocBlock{e}
